@@ -26,6 +26,7 @@ pub enum Derive {
     /// keep the first k characters (fraction)
     Truncate(u16),
     Append(String),
+    Prepend(String),
     /// replace the character at the position (fraction) by this one
     Replace(u16, char),
 }
@@ -49,6 +50,7 @@ fn derive(base: &str, d: &Derive) -> String {
             base.chars().take(idx(*f, n + 1)).collect()
         },
         Derive::Append(s) => format!("{base}{s}"),
+        Derive::Prepend(s) => format!("{s}{base}"),
         Derive::Replace(f, c) => {
             let n = base.chars().count();
             if n == 0 {
@@ -246,7 +248,8 @@ fn derive_strategy() -> BoxedStrategy<Derive> {
         1 => Just(Derive::Upper),
         1 => Just(Derive::Lower),
         2 => any::<u16>().prop_map(Derive::Truncate),
-        2 => prop_oneof![Just("_".to_string()), Just("\u{0}".to_string()), Just("\u{ff}".to_string()), "[a-zA-Z_]{1,3}"].prop_map(Derive::Append),
+        2 => prop_oneof![Just("_".to_string()), Just("\u{0}".to_string()), Just("\u{0}\u{0}".to_string()), Just("\u{ff}".to_string()), "[a-zA-Z_]{1,3}"].prop_map(Derive::Append),
+        2 => prop_oneof![Just("REDIRECT_".to_string()), Just("HTTP_".to_string()), Just("X_".to_string()), Just("_".to_string()), Just("REDIRECT_REDIRECT_".to_string()), Just("ORIG_".to_string()), Just("\u{0}".to_string()), "[a-zA-Z_]{1,3}"].prop_map(Derive::Prepend),
         2 => (any::<u16>(), prop_oneof![Just('_'), Just('-'), Just('k'), Just('K'), Just('\u{212a}'), Just('ı'), Just('ä'), Just('Ä'), Just('@'), Just('`'), Just('['), Just('{'), any::<char>()]).prop_map(|(f, c)| Derive::Replace(f, c)),
     ]
     .boxed()
@@ -351,16 +354,16 @@ pub fn property() -> Property {
             prop_sub(
                 "triples",
                 "triples of names derived from one base (interned names, ASCII, lengths 14..18/30..34/47..49, Unicode, Kelvin sign / dotless i / sharp s, empty) by re-casing, truncation, extension, one-character replacement, each built through one of 9 constructors; eq/cmp for owned and borrowed types vs. the reference relations, hash streams, constructor normalisation, HashMap/BTreeMap lookups by three spellings; non-trivial = the triple contains two equal names with different spellings; distinct = hash of the case",
-                200_000,
-                5_000_000,
+                1_000_000,
+                20_000_000,
                 |_| boxed((base_name(), [derive_strategy(), derive_strategy(), derive_strategy()], [0u8..N_CTORS, 0u8..N_CTORS, 0u8..N_CTORS]).prop_map(|(base, derive, ctor)| Case { base, derive, ctor })),
                 test,
             ),
             prop_sub(
                 "header_names",
                 "HTTP header names (standard ones and generated token strings): OwnedVarName::from(&HeaderName) = HTTP_ + upper-cased name with '-' -> '_', equal to the directly constructed name; non-trivial = valid header name",
-                20_000,
-                400_000,
+                100_000,
+                2_000_000,
                 |_| boxed(prop_oneof![
                     2 => prop_oneof![Just("user-agent"), Just("x-forwarded-for"), Just("accept"), Just("content-type"), Just("if-none-match"), Just("sec-ch-ua-platform-version"), Just("x-request-id"), Just("dnt"), Just("service-worker-navigation-preload")].prop_map(str::to_string),
                     3 => "[a-z0-9][a-z0-9-]{0,40}",
